@@ -243,7 +243,7 @@ Definition run_case (c : wcase) : tm :=
       | Err e => L_ [L_ [N_ 2; N_ (serr_code e)]]
       | Panic _ => L_ [N_ 99]
       | Ok si =>
-          L_ (N_ 0 :: wrun {| x_dd := disk_of (w_dd c); x_di := disk_of (w_di c);
+          L_ (N_ 0 :: tm_keys sd :: tm_keys si :: wrun {| x_dd := disk_of (w_dd c); x_di := disk_of (w_di c);
                               x_data := sd; x_imgs := si |} (w_ops c))
       end
   end.
